@@ -118,6 +118,9 @@ func (f V1Frame) marshalTo(buf []byte, msgEncoded []byte) (int, error) {
 	}
 
 	msgLen := len(msgEncoded)
+	if msgLen > 0xFF {
+		return 0, fmt.Errorf("cannot send a payload longer than 255 bytes")
+	}
 
 	// header
 	buf[0] = V1MagicByte
